@@ -123,6 +123,8 @@ pub struct PeerShared {
     pub barrier_release: u64,
     pub reader_gone: bool,
     pub frozen: bool,
+    /// The writer half is in a `Sleep` op (waiting for simulated time to pass).
+    pub sleeping: bool,
 }
 
 type SharedPeer = Rc<RefCell<PeerShared>>;
@@ -267,6 +269,12 @@ async fn peer_writer(
             }
             Op::CloseWrite => {
                 writer = None;
+                None
+            }
+            Op::Sleep { ms } => {
+                shared.borrow_mut().sleeping = true;
+                tokio::time::sleep(Duration::from_millis(*ms)).await;
+                shared.borrow_mut().sleeping = false;
                 None
             }
             Op::CloseRead => {
@@ -742,7 +750,16 @@ fn start_incarnation(
     };
     let channels = AgentRouteChannels::new(att_rx, http_rx, link_tx);
     let end: Rc<RefCell<Option<AgentEnd>>> = Rc::new(RefCell::new(None));
-    let fut: Pin<Box<dyn Future<Output = Result<(), AgentExecError>>>> = if k.persistent {
+    let fut: Pin<Box<dyn Future<Output = Result<(), AgentExecError>>>> = if let Some(plan) = sc.fake.clone() {
+        let agent = super::fake::FakeAgent {
+            truth: truth.clone(),
+            plan: if epoch == 0 { Some(plan) } else { None },
+            lane_in_buf: k.lane_in_buf as usize,
+            lane_out_buf: k.lane_out_buf as usize,
+        };
+        let task = AgentRouteTask::new(&agent, descriptor, channels, stop_rx, config, reporting);
+        Box::pin(task.run_agent())
+    } else if k.persistent {
         let store = RecordingStore::new(durable.clone());
         let task = AgentRouteTask::new(&model, descriptor, channels, stop_rx, config, reporting);
         Box::pin(task.run_agent_with_store(async move { Ok::<_, StoreError>(store) }))
@@ -947,6 +964,13 @@ pub async fn run_scenario(sc: &AgentScenario, keep_log: bool) -> RunRecord {
                 // The system is idle: everything produced so far has been read by every remote
                 // that is not frozen. A good moment to look at the introspection counters.
                 snapshot_reports(&inc, &hist);
+                // A peer is waiting for simulated time to pass: let the clock move (timers of the
+                // product fire as well).
+                if inc.peers.iter().any(|p| p.borrow().sleeping) && rec.time_advances < 200 {
+                    rec.time_advances += 1;
+                    let _ = exec.wait_for_wake(Duration::from_secs(3600)).await;
+                    continue;
+                }
                 // Release barriers first (peers waiting for "everything produced so far has been read").
                 let mut released = false;
                 for p in &inc.peers {
